@@ -28,7 +28,7 @@ MANIFEST = dict(
          "positions and flags: forward code in byte mode with or without the scan mode (vm_sound; matches_sound: a true `matches` verdict implies a matching substring), "
          "forward code with one- or two-byte (wide) characters (vm_sound_forward), and backward code - proved to be the forward code of the mirrored expression - run with "
          "RE_FLAGS_BACKWARDS, byte or wide (vm_sound_backward: L <= start and the expression matches buf[start-L, start)). "
-         "the atoms extracted for the string (Model/ReAtoms.lean: walk with the sliding window, trim, OR/AND tree, choice - for EVERY quality function) cover every match: each match contains an occurrence of a chosen masked atom, or nothing was chosen and the zero-length atom applies (reAtoms_cover_partial: byte mode, no nocase, before wildcard expansion, without the position statement). NOT proved: runs entering the code at an atom's instruction (the forward+backward composition of _yr_scan_verify_re_match; at specification level: decompose), the "
+         "the atoms handed to yr_ac_add_string (Model/ReAtoms.lean: walk with the sliding window, trim, OR/AND tree, choice - for EVERY quality function - wildcard expansion, widened atoms, case variants, zero-length atom) cover every match, for every expression, byte or wide matching, with or without nocase: one of these byte sequences occurs literally inside the match at the position of the node it begins at (reAtoms_cover; the position statement - before / node / after, code entry points - for loop-free expressions in Thm/C02); NOT proved: runs entering the code at an atom's instruction (the forward+backward composition of _yr_scan_verify_re_match; at specification level: decompose), the "
          "fast matcher, VM completeness (epsilon-loops, fiber limits), atom extraction, Aho-Corasick. That gap is covered by SAMPLING on "
          "every run: generated regexes (<= 12 nodes, all-greedy / all-lazy, anchors, word boundaries, classes, /i /s, nocase ascii wide fullword, atoms forced into groups, "
          "branches and repeats) x buffers (< 1024 bytes) through the real engine vs. the compiled Lean specification (complete match lists, `matches` verdicts through literal "
